@@ -3,13 +3,13 @@
    reads state of an earlier call.  Every statement is written so that it stays provable
    when one of the generated "fixed" flags flips. *)
 From Coq Require Import List ZArith String Bool.
-From LJT Require Import gen.GenErrPaths model.ApiState model.ApiOps proofs.ApiStateProofs proofs.ApiHistoryProofs.
+From LJT Require Import gen.GenErrPaths model.ApiState model.ApiOps model.ApiUniverse proofs.ApiStateProofs proofs.ApiHistoryProofs.
 Import ListNotations.
 Local Open Scope Z_scope.
 Local Open Scope string_scope.
 
 Ltac kinds k :=
-  destruct k as [ | | | | b | | | s v | b s c m | s | m | | | s v | | s m | s];
+  destruct k as [ | | | | b | | | s v | b s c m | s v | m | | | s v | | s m | s | s | b | b];
   try destruct b; try destruct s; try destruct v; try destruct c; try destruct m.
 
 Definition getter (k : opk) : bool := match k with KGetICC | KTransformBufSize => true | _ => false end.
@@ -23,15 +23,6 @@ Definition plain_probe (k : opk) : bool :=
   | _ => true
   end.
 
-Definition all_kinds : list opk :=
-  [KSet; KSetScaling; KSetCrop; KSetICC; KCompress B8; KCompress B12; KCompress B16; KCompressYUV; KEncodeYUV;
-   KGetICC; KTransformBufSize; KHeader true true; KHeader true false; KHeader false true; KHeader false false;
-   KDecompressYUV true; KDecompressYUV false;
-   KDecodeYUV true; KDecodeYUV false; KTransform true true; KTransform true false; KTransform false true; KTransform false false;
-   KLegacyCompress; KLegacyDecompress true true; KLegacyDecompress true false; KLegacyDecompress false true;
-   KLegacyDecompress false false; KLegacyTransform true; KLegacyTransform false] ++
-  flat_map (fun b => flat_map (fun s => flat_map (fun c => map (fun m => KDecompress b s c m) [true; false]) [true; false]) [true; false])
-           [B8; B12; B16].
 Lemma all_kinds_complete : forall k, In k all_kinds.
 Proof. intro k. kinds k; vm_compute; tauto. Qed.
 
@@ -186,8 +177,6 @@ Lemma probes_nonvacuous :
 Proof. auto. Qed.
 
 (* ------------------------------------------------------------ (3) reset lists *)
-Fixpoint smem (x : string) (l : list string) : bool :=
-  match l with [] => false | y :: t => String.eqb x y || smem x t end.
 Lemma smem_In x l : smem x l = true -> In x l.
 Proof.
   induction l as [|y t IH]; cbn; [discriminate|]. intro H. apply orb_true_iff in H.
@@ -275,3 +264,13 @@ Fixpoint cset_targets (c : cmd) : list string :=
   end.
 Lemma process_flags_source : cset_targets (process_flags true) = process_flags_fields.
 Proof. vm_compute. reflexivity. Qed.
+
+(* every exported function is modelled by a kind, a life-cycle function, stateless, or a wrapper that only sets
+   parameters and calls classified functions; and every function a kind claims to model is exported *)
+Lemma universe_lemma : universe_ok = true.
+Proof. vm_compute. reflexivity. Qed.
+Lemma universe_classified : forall n, In n exported_functions -> classify 8 n <> Unclassified.
+Proof.
+  intros n Hn. pose proof universe_lemma as H. unfold universe_ok in H. apply andb_true_iff in H. destruct H as [H _].
+  rewrite forallb_forall in H. specialize (H n Hn). destruct (classify 8 n); congruence.
+Qed.
